@@ -217,6 +217,12 @@ def step(rng, pool):
     if op == "pad" and nd:
         return "pad(x,1)", sparse.pad(x, 1, constant_values=x.fill_value)
     if op == "bcast":
+        if rng.random() < 0.5:
+            # stretched axes forming a run between kept axes: the sorted= promise of broadcast_to depends on the pattern
+            pos = int(rng.integers(0, nd + 1))
+            y = sparse.expand_dims(sparse.expand_dims(coo, axis=pos), axis=pos)
+            tgt = y.shape[:pos] + (int(rng.integers(1, 4)), int(rng.integers(1, 4))) + y.shape[pos + 2:]
+            return f"broadcast_to(expand_dims^2(coo,{pos}),{tgt})", sparse.broadcast_to(y, tgt)
         return "broadcast_to(coo,(2,)+shape)", sparse.broadcast_to(coo, (2,) + coo.shape)
     if op == "where":
         return "where(x>0,x,fill)", sparse.where(coo > 0, coo, coo.fill_value)
@@ -251,10 +257,16 @@ def leg_c(ctx, rng, n):
             shp = gen.shape(rng, 1, 3, extents=[1, 2, 2, 3, 3, 4, 5], max_size=80)
             fill = int(rng.choice([0, 0, 0, 2]))
             d = gen.dense(rng, shp, fill, density=float(rng.choice([0.15, 0.4, 0.7, 1.0])))
-            if rng.random() < 0.3:
+            r = rng.random()
+            if r < 0.3:
                 d = d.astype(np.float64) / 2
+            elif r < 0.42:
+                # a NaN (or infinite) fill value, real or complex: "equal to the fill value" needs NaN == NaN there
+                fill = [float("nan"), float("inf"), complex("nan+0j")][int(rng.integers(3))]
+                dt = np.complex128 if isinstance(fill, complex) else np.float64
+                d = np.where(rng.random(size=shp) < 0.5, np.asarray(fill, dtype=dt), d.astype(dt))
             x, fd = gen.to_format(rng, d, None, fill)
-            pool.append(x); descs.append({"format": fd, "dense": d.tolist(), "fill": fill})
+            pool.append(x); descs.append({"format": fd, "dense": np.asarray(d).astype(str).tolist() if np.asarray(d).dtype.kind in "fc" else d.tolist(), "fill": repr(fill)})
         trace = []
         for depth in range(int(rng.integers(1, 5))):
             with warnings.catch_warnings():
